@@ -39,19 +39,25 @@ type propConf struct {
 	QuickBudget float64 // seconds of search per worker
 	ThorBudget  float64
 	Workers     int // 0 = all cores
+	// Arch: build the worker for another GOARCH (the platform is one more thing the library's arithmetic depends on)
+	Arch string
+	// Also386: after the search on the machine's own architecture a shorter one (a quarter of the budget, other
+	// seed) runs on a worker built for GOARCH=386: int and pointers have 32 bits there. Skipped with a note where
+	// such a worker cannot be built or executed.
+	Also386 bool
 }
 
 var props = map[string]propConf{
-	"C01": {Engine: "E1+E2", QuickBudget: 15, ThorBudget: 600},
+	"C01": {Engine: "E1+E2", QuickBudget: 15, ThorBudget: 600, Also386: true},
 	"C02": {Engine: "E1+E2", QuickBudget: 15, ThorBudget: 600},
 	"C03": {Engine: "E1", QuickBudget: 12, ThorBudget: 600},
 	"C04": {Engine: "E1+E2", QuickBudget: 12, ThorBudget: 600},
 	"C05": {Engine: "E1+E2", QuickBudget: 12, ThorBudget: 600},
 	"C06": {Engine: "E1+E2", QuickBudget: 12, ThorBudget: 600},
 	"C07": {Engine: "E1", QuickBudget: 12, ThorBudget: 600},
-	"C08": {Engine: "E1", QuickBudget: 12, ThorBudget: 600},
-	"C10": {Engine: "E1+E2", QuickBudget: 15, ThorBudget: 600},
-	"C11": {Engine: "E1", QuickBudget: 12, ThorBudget: 600},
+	"C08": {Engine: "E1", QuickBudget: 12, ThorBudget: 600, Also386: true},
+	"C10": {Engine: "E1+E2", QuickBudget: 15, ThorBudget: 600, Also386: true},
+	"C11": {Engine: "E1", QuickBudget: 12, ThorBudget: 600, Also386: true},
 	"C20": {Engine: "E1", QuickBudget: 12, ThorBudget: 600},
 	"C18": {Engine: "E3", Bubble: true, QuickBudget: 15, ThorBudget: 600},
 	"C17": {Engine: "E4", QuickBudget: 15, ThorBudget: 600},
@@ -155,25 +161,33 @@ type built struct {
 
 // build generates the overlay from the repo's working tree and builds the worker.
 func build(pc propConf) *built {
-	scratch, err := os.MkdirTemp("", "vsim-")
+	b, err := tryBuild(pc)
 	if err != nil {
 		die2("%v", err)
+	}
+	return b
+}
+
+func tryBuild(pc propConf) (*built, error) {
+	scratch, err := os.MkdirTemp("", "vsim-")
+	if err != nil {
+		return nil, err
 	}
 	repo := repoDir()
 	res, err := instr.Generate(repo, scratch, filepath.Join(verifDir, "instr", "helpers"))
 	if err != nil {
 		os.RemoveAll(scratch)
-		die2("%v", err)
+		return nil, err
 	}
 	// scratch go.mod with the replace pointing at the repo under test
 	gomod := fmt.Sprintf("module verif\n\ngo 1.23\n\nrequire github.com/alibaba/sentinel-golang v0.0.0\n\nreplace github.com/alibaba/sentinel-golang => %s\n", repo)
 	modfile := filepath.Join(scratch, "go.mod")
 	if err := os.WriteFile(modfile, []byte(gomod), 0o644); err != nil {
-		die2("%v", err)
+		return nil, err
 	}
 	sum, err := os.ReadFile(filepath.Join(repo, "go.sum"))
 	if err != nil {
-		die2("%v", err)
+		return nil, err
 	}
 	_ = os.WriteFile(filepath.Join(scratch, "go.sum"), sum, 0o644)
 	b := &built{scratch: scratch, tree: res.TreeHash, sites: res.Sites}
@@ -192,12 +206,15 @@ func build(pc propConf) *built {
 	}
 	cmd.Dir = verifDir
 	cmd.Env = goEnv()
+	if pc.Arch != "" {
+		cmd.Env = append(cmd.Env, "GOARCH="+pc.Arch)
+	}
 	out, err := cmd.CombinedOutput()
 	if err != nil {
 		os.RemoveAll(scratch)
-		die2("build of the instrumented worker failed (not a verdict):\n%s", out)
+		return nil, fmt.Errorf("build of the instrumented worker failed (not a verdict):\n%s", out)
 	}
-	return b
+	return b, nil
 }
 
 func (b *built) cleanup() { os.RemoveAll(b.scratch) }
@@ -254,6 +271,7 @@ func cmdReplay(args []string) int {
 	}
 	var c struct {
 		Property string `json:"property"`
+		Arch     string `json:"goarch"`
 	}
 	if err := json.Unmarshal(raw, &c); err != nil {
 		die2("%v", err)
@@ -266,6 +284,9 @@ func cmdReplay(args []string) int {
 	pc, ok := props[c.Property]
 	if !ok {
 		die2("unknown property %q in replay file", c.Property)
+	}
+	if c.Arch != "" && c.Arch != runtime.GOARCH {
+		pc.Arch = c.Arch
 	}
 	b := build(pc)
 	defer b.cleanup()
@@ -334,6 +355,9 @@ func cmdCheck(args []string) int {
 	if id == "C19" {
 		return cmdCheckC19(*tier, seed, *runs)
 	}
+	if a := os.Getenv("VERIF_GOARCH"); a != "" {
+		pc.Arch = a
+	}
 	start := time.Now()
 	fmt.Printf("vsim: property=%s tier=%s seed=%d workers=%d budget=%.0fs repo=%s\n", id, *tier, seed, *workers, *budget, repoDir())
 	b := build(pc)
@@ -400,6 +424,9 @@ func cmdCheck(args []string) int {
 			return 2
 		}
 	}
+	if pc.Also386 && pc.Arch == "" && *runs == 0 {
+		sums = append(sums, pass386(pc, id, *tier, seed, *budget/4, replayDir, openKeys)...)
+	}
 	for w, v := range fatals {
 		if v != nil {
 			if sums[w] == nil {
@@ -409,6 +436,70 @@ func cmdCheck(args []string) int {
 		}
 	}
 	return report(id, *tier, seed, pc, sums, b, time.Since(start).Seconds())
+}
+
+// pass386 runs the search again, shorter and from another seed, on a worker built for GOARCH=386. Trouble building or
+// starting such a worker is not a verdict and not a failure of the check: the pass is skipped with a note.
+func pass386(pc propConf, id, tier string, seed uint64, budget float64, replayDir string, openKeys []string) []*summary {
+	pc.Arch = "386"
+	b, err := tryBuild(pc)
+	if err != nil {
+		fmt.Printf("vsim: note: no 386 pass (the worker could not be built for GOARCH=386: %s)\n", firstLine(err.Error()))
+		return nil
+	}
+	defer b.cleanup()
+	const workers = 4
+	var wg sync.WaitGroup
+	sums := make([]*summary, workers)
+	notes := make([]string, workers)
+	for w := 0; w < workers; w++ {
+		wg.Add(1)
+		go func(w int) {
+			defer wg.Done()
+			out := filepath.Join(b.scratch, fmt.Sprintf("sum386-%d.json", w))
+			cmd := workerCmd(b, pc, "-prop", id, "-tier", tier, "-seed", fmt.Sprint(seed+386000), "-worker", fmt.Sprint(w),
+				"-workers", fmt.Sprint(workers), "-runs", "0", "-budget", fmt.Sprint(budget),
+				"-out", out, "-replaydir", replayDir, "-tree", b.tree, "-known", strings.Join(openKeys, ","))
+			stderr, err := cmd.CombinedOutput()
+			raw, rerr := os.ReadFile(out)
+			var s summary
+			if rerr != nil || json.Unmarshal(raw, &s) != nil || s.Infra != "" {
+				notes[w] = firstLine(fmt.Sprintf("%v %s %s", err, s.Infra, tail(string(stderr), 300)))
+				return
+			}
+			sums[w] = &s
+		}(w)
+	}
+	wg.Wait()
+	var ok []*summary
+	n := 0
+	for w, s := range sums {
+		if s == nil {
+			fmt.Printf("vsim: note: 386 worker %d gave no result (%s)\n", w, notes[w])
+			continue
+		}
+		n += s.Evaluations
+		ok = append(ok, s)
+	}
+	if len(ok) > 0 {
+		if ok[0].Probes == nil {
+			ok[0].Probes = map[string]int{}
+		}
+		ok[0].Probes["runs_on_a_worker_built_for_GOARCH_386"] = n
+		fmt.Printf("vsim: 386 pass: %d runs on a worker built for GOARCH=386 (int and pointers of 32 bits), seed %d, %.0f s\n", n, seed+386000, budget)
+	}
+	return ok
+}
+
+func firstLine(s string) string {
+	s = strings.TrimSpace(s)
+	if i := strings.IndexByte(s, '\n'); i >= 0 {
+		s = s[:i]
+	}
+	if len(s) > 300 {
+		s = s[:300]
+	}
+	return s
 }
 
 // postMortem regenerates the case that was in flight when a worker died of a runtime fatal error and
